@@ -34,11 +34,16 @@ MC_RUNS = [  # (module, quick cfg, thorough cfg, label, actions that must have b
 ]
 
 SIM_RUNS = [  # (module, cfg, kind, behaviours quick, behaviours thorough, depth)
-    ("MemoryMapping", "SimMemoryMapping.cfg", "mm", 150, 1200, 40),
-    ("MemoryMappingVector", "SimMemoryMappingVector.cfg", "vec", 40, 250, 30),
-    ("IndexMultimap", "SimIndexMultimap.cfg", "multi", 120, 1000, 40),
+    ("MemoryMapping", "SimMemoryMapping.cfg", "mm", 300, 1500, 40),
+    ("MemoryMapping", "SimMemoryMappingAnon.cfg", "mm", 100, 600, 40),       # anonymous only: shrink / grow around page borders
+    ("MemoryMappingVector", "SimMemoryMappingVector.cfg", "vec", 60, 300, 30),
+    ("IndexMultimap", "SimIndexMultimap.cfg", "multi", 200, 1200, 40),
+    ("IndexMultimap", "SimIndexMultimapHybrid.cfg", "multi", 150, 800, 40),   # Hybrid alone, few ids and values: the same pair in both parts
 ]
 
+GEN_QUICK = [  # both tiers: every way of opening a vector (incl. the file whose size is no multiple of sizeof(T)) + one more call
+    ("MemoryMappingVector", "GenMemoryMappingVectorOpen.cfg", "vec"),
+]
 GEN_RUNS = [  # thorough only: every history of a bounded configuration, breadth first (a seeded sample is replayed)
     ("MemoryMapping", "GenMemoryMapping.cfg", "mm"),
     ("MemoryMappingVector", "GenMemoryMappingVector.cfg", "vec"),
@@ -47,8 +52,31 @@ GEN_RUNS = [  # thorough only: every history of a bounded configuration, breadth
 GEN_CAP = 1500
 
 
+_early = {}
+
+
+def start_prebuild():
+    """Optional: C12.run() calls this first, so that the (cold) build of the extension's harness runs beside the TLC runs
+    and the replay of the map families.  run_part() works without it."""
+    if "thread" in _early:
+        return
+
+    def work():
+        try:
+            _early["binary"] = vlib.build(*HARNESS)
+        except Exception as ex:      # re-raised by prebuild() on the caller's thread
+            _early["error"] = ex
+    _early["thread"] = threading.Thread(target=work)
+    _early["thread"].start()
+
+
 def prebuild():
-    """Build the harness (C12.run() calls this from its build thread so that the compiler runs beside TLC)."""
+    """The harness binary (waits for the early build if one was started)."""
+    t = _early.get("thread")
+    if t is not None:
+        t.join()
+        if "error" in _early:
+            raise _early["error"]
     return vlib.build(*HARNESS)
 
 
@@ -59,9 +87,8 @@ def _jobs(ctx):
         jobs.append(dict(kind="mc", mod=mod, cfg=qcfg if quick else tcfg, label=label, acts=acts))
     for mod, cfg, fam, nq, nt, depth in SIM_RUNS:
         jobs.append(dict(kind="sim", mod=mod, cfg=cfg, label=cfg[:-4], fam=fam, n=nq if quick else nt, depth=depth))
-    if not quick:
-        for mod, cfg, fam in GEN_RUNS:
-            jobs.append(dict(kind="gen", mod=mod, cfg=cfg, label=cfg[:-4], fam=fam))
+    for mod, cfg, fam in GEN_QUICK + ([] if quick else GEN_RUNS):
+        jobs.append(dict(kind="gen", mod=mod, cfg=cfg, label=cfg[:-4], fam=fam))
     return jobs
 
 
@@ -105,7 +132,7 @@ def _sig(c, r):
 
 
 def _replay(ctx, cases):
-    binary = vlib.build(*HARNESS)
+    binary = prebuild()
     tmp = os.path.join(vlib.BUILD, "c12xtmp.%d.%d" % (os.getpid(), threading.get_ident()))
     shutil.rmtree(tmp, ignore_errors=True)
     os.makedirs(tmp)
@@ -192,7 +219,7 @@ def run_part(ctx):
             key = c["kind"] + ":" + s["a"] + (":err" if s.get("err") else "")
             acts[key] = acts.get(key, 0) + 1
     need = ["mm:ctor", "mm:ctor:err", "mm:resize", "mm:resize:err", "mm:write", "mm:unmap", "mm:dtor", "mm:move_ctor", "mm:move_assign",
-            "vec:open", "vec:resize", "vec:reserve", "vec:push_back", "vec:set_at", "vec:shrink_to_fit", "vec:clear", "vec:reopen",
+            "vec:open", "vec:open:err", "vec:resize", "vec:reserve", "vec:push_back", "vec:set_at", "vec:shrink_to_fit", "vec:clear", "vec:reopen",
             "multi:set", "multi:uset", "multi:sort", "multi:remove", "multi:erase", "multi:consolidate", "multi:reload"]
     missing = [a for a in need if not acts.get(a)]
     if missing:
